@@ -75,6 +75,8 @@ append_data = Contract(
         "%s == old(%s) + data" % (_ALL, _ALL),
         "len(self.writer.sink) >= len(old(self.writer.sink))",
     ],
+    # the Records branch is outside the precondition (bounded-only); its two numpy statements are havocked
+    abstract_ok=["self.buffer = np.recarray(", "self.buffer = np.append(self.buffer, data)"],
     uses=["mokapot.tabular_data.BufferedWriter._write_buffer"],
 )
 
